@@ -67,9 +67,31 @@ class UnsupportedUnit(Exception):
     pass
 
 
+class MalformedUnit(Exception):
+    """a pint Unit whose exponent is not a number (e.g. a numpy array): unusable, hashing it raises"""
+
+
+def plain_unit(osyris, u):
+    """The same unit with numpy-scalar exponents replaced by Python numbers (pint's own arithmetic on the
+    registry's integer factors refuses numpy integer exponents); an ndarray exponent is malformed."""
+    import numpy as np
+    from pint.util import UnitsContainer
+
+    d = {}
+    changed = False
+    for n, e in u._units.items():
+        if isinstance(e, np.ndarray):
+            raise MalformedUnit(f"{n} ** {e!r}")
+        if isinstance(e, np.generic):
+            e = e.item()
+            changed = True
+        d[n] = e
+    return u.__class__(UnitsContainer(d)) if changed else u
+
+
 def unit_fd(osyris, unit):
     """(Fraction factor, [Fraction exponents]) of a pint Unit or unit string, from pint."""
-    u = osyris.units(unit) if isinstance(unit, str) or unit is None else unit
+    u = osyris.units(unit) if isinstance(unit, str) or unit is None else plain_unit(osyris, unit)
     q = (1.0 * u).to_root_units()
     dims = [Fraction(0)] * len(ROOTS)
     for name, exp in q.units._units.items():
